@@ -191,7 +191,8 @@ def epRxChunk (st : EpSt) (c : RawChunk) : EpSt :=
         let rw := if st.cumAcked == some cum then min st.bestRwnd arwnd.toNat else arwnd.toNat
         let un := (st.unacked.filter (fun e => tsnGt e.1 cum)).map (fun e => (e.1, e.2.1, e.2.2 || inGaps cum gaps e.1))
         { st with cumAcked := some cum, bestRwnd := rw, unacked := un, afterT3 := st.afterT3 && !un.isEmpty,
-                  t3Count := if un.isEmpty then 0 else st.t3Count }
+                  -- the T3 excuse counts expiries since the last SACK that moved the cumulative TSN
+                  t3Count := if un.isEmpty || st.cumAcked != some cum then 0 else st.t3Count }
       else
         { st with unacked := st.unacked.map (fun e => (e.1, e.2.1, e.2.2 || inGaps cum gaps e.1)) }
     | none => st
@@ -263,7 +264,7 @@ def epStep (cfg : List (UInt16 × Nat)) (st : EpSt) (idx : Nat) (ev : TEv) : EpS
   | .win cwnd flight _ burst _ =>
     -- correspondence (not an oracle): the window the code computes from its own variables, with the
     -- advertised window the model believes the code holds (the last one received)
-    let eff := min (min (flight + burst) cwnd) st.rwnd
+    let eff := if st.rwnd = 0 ∧ flight = 0 then 1 else min (min (flight + burst) cwnd) st.rwnd   -- (zero-window probe)
     { st with out := st.out ++ [s!"w{eff}"] }
   | .new available _ _ _ =>
     let r := popSizes st.outQ available 0
